@@ -35,10 +35,10 @@ type deferred struct {
 }
 
 type fnInfo struct {
-	slots map[ssa.Value]int
-	n     int
-	intr  intrinsic
-	name  string
+	slots  map[ssa.Value]int
+	n      int
+	intr   intrinsic
+	name   string
 	looked bool
 }
 
@@ -73,12 +73,12 @@ type Machine struct {
 	infos   map[*ssa.Function]*fnInfo
 
 	// decisions
-	prefix  []Decision
-	trace   []Decision
-	pos     int
-	pending [][]Decision
-	model   *Model
-	pcN     int
+	prefix      []Decision
+	trace       []Decision
+	pos         int
+	pending     [][]Decision
+	model       *Model
+	pcN         int
 	feasUnknown bool
 
 	// statistics / results
@@ -90,41 +90,42 @@ type Machine struct {
 	stubsSeen map[string]bool
 
 	// threads
-	threads   []*Thread
-	cur       *Thread
-	over      bool
-	preempts  int
-	chanSeq   int
+	threads  []*Thread
+	cur      *Thread
+	over     bool
+	preempts int
+	chanSeq  int
 
 	// models
-	fs        *FS
-	side      map[interface{}]interface{} // side tables (cond waiters, sync.Map, …)
-	uuidSeq   int
-	inInit    int
-	crashArmed bool
-	crashed    bool
-	fsSteps    int
-	tolerant   int
-	crashAt    string
-	fsFaults   int
-	symPathHook func(p Value, op string)
-	fsClock    Value
-	nowV       Value
-	declCovers map[string]bool
+	fs           *FS
+	side         map[interface{}]interface{} // side tables (cond waiters, sync.Map, …)
+	uuidSeq      int
+	inInit       int
+	crashArmed   bool
+	crashed      bool
+	fsSteps      int
+	tolerant     int
+	crashAt      string
+	fsFaults     int
+	symPathHook  func(p Value, op string)
+	fsClock      Value
+	nowV         Value
+	declCovers   map[string]bool
 	crashPending bool
-	overSignal *pathEnd
-	internalErr string
-	crcOrigin  map[*Term][]Value
-	lastInstr  ssa.Instruction
-	lastFn     *ssa.Function
-	lastFrame  *frame
+	overSignal   *pathEnd
+	internalErr  string
+	crcOrigin    map[*Term][]Value
+	lastInstr    ssa.Instruction
+	lastFn       *ssa.Function
+	lastFrame    *frame
+	opaqueFmt    int
 }
 
 type nondetVar struct {
-	Name string
-	Kind string // int, int64, uint64, byte, bool, ...
-	t    *Term
-	w    int
+	Name   string
+	Kind   string // int, int64, uint64, byte, bool, ...
+	t      *Term
+	w      int
 	signed bool
 }
 
